@@ -22,6 +22,8 @@ def expected(case, r):
         return ['err', 'EEncoding']
     if req['missing']:
         return ['err', 'EMissing']
+    if req.get('badaccept'):
+        return ['err', 'EEncoding']      # the outcome cannot be encoded into anything the caller accepts
     return ['ok', gen, case['mult'][str(gen)] * req['value']]
 
 
@@ -99,7 +101,7 @@ def to_actions(case, obs):
             acts.append(f'(ADeliver {cn(i)} {cn(n)})')
             r = owner[(tok, ev[4])]
             if not case['requests'][r]['missing']:
-                acts.append(f'(ARespond {cn(r)})')
+                acts.append(f'(ARespond {cn(r)})')     # for an unsupported accept list this is where the request fails
     return acts
 
 
@@ -140,6 +142,10 @@ class C16(core.Prop):
             {'apps': [[0, 1], [1, 2]], 'mult': {'1': 3, '2': 11}, 'workers': 2, 'list_delay': 0.0,
              'requests': [{**mk(0, 1), 'missing': True, 'misnamed': True}, mk(0, 2, arrival=30), {**mk(1, 3, arrival=30), 'permuted': True}, mk(1, 4, arrival=40),
                           mk(0, 5, arrival=40)]},
+            # a request whose accept list no encoder can serve (fails in the responder pool), others in flight and later
+            {'apps': [[0, 1], [1, 2]], 'mult': {'1': 3, '2': 11}, 'workers': 2, 'list_delay': 0.0,
+             'requests': [mk(0, 1), {**mk(0, 2), 'badaccept': True}, mk(1, 3), {**mk(1, 4, arrival=20), 'badaccept': True}, mk(0, 5, arrival=40), mk(1, 6, arrival=60),
+                          mk(0, 7, arrival=80)]},
         ]
 
     def cases(self, rng, tier):
@@ -161,6 +167,7 @@ class C16(core.Prop):
                     'missing': 0.16 <= fault < 0.24,
                     'misnamed': 0.16 <= fault < 0.20,          # the missing feature is there under a wrong name (same dtypes)
                     'permuted': fault >= 0.24 and rng.random() < 0.3,
+                    'badaccept': 0.24 <= fault < 0.30,         # valid payload, but no encoder for what the caller accepts
                     'arrival': rng.choice([0, 0, 0, 1, 3, 10, 20]),
                 })
             out.append({'apps': apps, 'mult': mult, 'workers': rng.randint(1, 4), 'list_delay': rng.choice([0.0, 0.0, 0.03, 0.08]), 'requests': reqs})
@@ -202,7 +209,7 @@ class C16(core.Prop):
                 got.append(f'(Err {c[1]})')
             else:
                 got.append('(Ok 999999 0%Z)')  # something the model never produces
-        reqs = cl([f"{{| r_app := {cn(r['app'])}; r_payload := {cz(r['value'])}; r_badenc := {cb(r['badenc'])}; r_missing := {cb(r['missing'])} |}}"
+        reqs = cl([f"{{| r_app := {cn(r['app'])}; r_payload := {cz(r['value'])}; r_badenc := {cb(r['badenc'])}; r_missing := {cb(r['missing'])}; r_badaccept := {cb(bool(r.get('badaccept')))} |}}"
                    for r in case['requests']], 'request')
         apps = cl([cp(cn(a), cn(g)) for a, g in case['apps']], 'nat * nat')
         mult = cl([cp(cn(int(g)), cz(m)) for g, m in case['mult'].items()], 'nat * Z')
@@ -220,7 +227,7 @@ class C16(core.Prop):
 
     def nontrivial(self, case, obs):
         gens = {g for _, g in case['apps']}
-        return (len(case['requests']) >= 4 and len(gens) >= 2) or any(r['badenc'] or r['missing'] or r['app'] == 9 for r in case['requests'])
+        return (len(case['requests']) >= 4 and len(gens) >= 2) or any(r['badenc'] or r['missing'] or r.get('badaccept') or r['app'] == 9 for r in case['requests'])
 
     def shrink(self, case):
         out = []
@@ -242,6 +249,7 @@ class C16(core.Prop):
                 dist['faults']['unknown_app'] += r['app'] == 9
                 dist['faults']['bad_encoding'] += r['badenc']
                 dist['faults']['missing_features'] += r['missing']
+                dist['faults']['unsupported_accept'] = dist['faults'].get('unsupported_accept', 0) + bool(r.get('badaccept'))
             dist['trace_events'] += len(o.get('trace', []))
             dist['traces_readable'] += 'error' not in o and to_actions(c, o) is not None
         return dist
